@@ -61,6 +61,9 @@ func (te *taskEnv) execExt(op *Op, rec *OpRec) bool {
 	case "san":
 		te.execSan(op, rec)
 		return true
+	case "ctor":
+		te.execCtor(op, rec)
+		return true
 	default:
 		if te.execM3(op, rec) || te.execTransport(op, rec) || te.execProm(op, rec) {
 			return true
